@@ -466,7 +466,7 @@ def term_text(t):
     if f == "multi":
         return "(multi %s %s)" % (term_text(t["a"]), term_text(t["b"]))
     if f == "taphold":
-        return "(tap-hold 10 10 %s %s)" % (term_text(t["a"]), term_text(t["b"]))
+        return "(tap-hold-press 10 10 %s %s)" % (term_text(t["a"]), term_text(t["b"]))
     if f == "tapdance":
         return "(tap-dance 10 (%s %s))" % (term_text(t["a"]), term_text(t["b"]))
     if f == "fork":
@@ -608,21 +608,21 @@ def run(tier, seed):
     thr_list = sorted(set(t for _, _, _, cases in tfam for (_, _, t, _) in cases))
     ages_job = lambda: tlc_job(wd, "ages", "ages", 1, 600, given=thr_list, heap="1g")
     if quick:
-        plan = [lambda: tlc_job(wd, "exprA", "expr", max(2, W - 7), 600, maxnodes=5, triples=(1, 2, 3, 4, 5, 6), heap="6g"),
+        plan = [lambda: tlc_job(wd, "exprA", "expr", 6, 600, maxnodes=5, triples=(1, 2, 3, 4, 5, 6), heap="6g"),
                 lambda: tlc_job(wd, "cases", "cases", 2, 600, maxcases=8, maxfull=6, pooln=2),
-                lambda: tlc_job(wd, "thr", "thr", 3, 600, thr=(0, 65535)),
+                lambda: tlc_job(wd, "thr", "thr", 4, 600, thr=(0, 65535)),
                 lambda: tlc_job(wd, "given", "given", 2, 600, given=[g[0] for g in given], envs=genvs), ages_job,
                 lambda: terms_job(wd, "terms1", 1, "full", 1, 600)]
         plan2 = []
     else:
-        plan = [lambda: tlc_job(wd, "exprA", "expr", max(2, W - 8), 3000, maxnodes=6, triples=(1, 2, 3, 4, 5, 6), heap="8g"),
+        plan = [lambda: tlc_job(wd, "exprA", "expr", 6, 3000, maxnodes=6, triples=(1, 2, 3, 4, 5, 6), heap="8g"),
                 lambda: tlc_job(wd, "cases", "cases", 2, 1200, maxcases=8, maxfull=8, pooln=2),
                 lambda: tlc_job(wd, "cases4", "cases", 2, 1200, maxcases=5, maxfull=5, pooln=4),
                 lambda: tlc_job(wd, "thr", "thr", 2, 1200, thr=(0, 65535)),
                 lambda: tlc_job(wd, "given", "given", 2, 3000, given=[g[0] for g in given], envs=genvs, heap="6g"), ages_job,
                 lambda: terms_job(wd, "terms1", 1, "full", 1, 600),
                 lambda: terms_job(wd, "terms2", 2, "side", 2, 1800, heap="4g")]
-        plan2 = [lambda: tlc_job(wd, "exprB", "expr", max(2, W - 4), 6000, maxnodes=7, triples=(3, 1), heap="8g"),
+        plan2 = [lambda: tlc_job(wd, "exprB", "expr", 6, 6000, maxnodes=7, triples=(3, 1), heap="8g"),
                  lambda: tlc_job(wd, "exprFixed", "expr", 2, 3000, variant="fixed", maxnodes=6, triples=(3,))]
     tl = run_parallel(plan)
     tl += run_parallel(plan2)
